@@ -188,6 +188,21 @@ proof fn succ_is_next_day(y: int, o: int)
             weekday_of(day_number(y, o) + 1) == (weekday_of(day_number(y, o)) + 1) % 7
 { dby_step(y); }
 
+// link between the (year, ordinal) form in which Kani proves succ_opt/pred_opt and the day-number form used by Verus callers
+proof fn succ_pred_dn_form(y: int, o: int)
+    requires MIN_Y() <= y <= MAX_Y(), 1 <= o <= year_len(y)
+    ensures (y == MAX_Y() && o == year_len(MAX_Y())) <==> day_number(y, o) == DN_MAX(),
+            (y == MIN_Y() && o == 1) <==> day_number(y, o) == DN_MIN(),
+            DN_MIN() <= day_number(y, o) <= DN_MAX(),
+            o < year_len(y) ==> day_number(y, o + 1) == day_number(y, o) + 1,
+            o == year_len(y) ==> day_number(y + 1, 1) == day_number(y, o) + 1,
+            o > 1 ==> day_number(y, o - 1) == day_number(y, o) - 1,
+            o == 1 ==> day_number(y - 1, year_len(y - 1)) == day_number(y, o) - 1
+{
+    dn_range_consts(); dby_step(y); dby_step(y - 1); in_range(y, o);
+    dn_lex_mono(y, o, MAX_Y(), 365); dn_lex_mono(y, o, MIN_Y(), 1);
+}
+
 proof fn slow_path(y: int, o: int, days: int, cdiv: int, cmod: int, y2mod: int, o2: int)
     requires 1 <= o <= year_len(y),
              cdiv == (cyc(y % 400, o) + days) / 146097, cmod == (cyc(y % 400, o) + days) % 146097,
@@ -224,11 +239,17 @@ spec fn flags_of(y: int) -> int { flags400(y % 400) }
 spec fn v_year(d: NaiveDate) -> int { v_yof(d) / 8192 }
 spec fn v_ord(d: NaiveDate) -> int { (v_yof(d) % 8192) / 16 }
 spec fn v_flags(d: NaiveDate) -> int { v_yof(d) % 16 }
-spec fn dwf(d: NaiveDate) -> bool {
+spec fn dwf0(d: NaiveDate) -> bool {
     MIN_Y() <= v_year(d) <= MAX_Y() && 1 <= v_ord(d) <= year_len(v_year(d)) && v_flags(d) == flags_of(v_year(d))
     && -2147483648 <= v_yof(d) <= 2147483647
 }
 spec fn dn(d: NaiveDate) -> int { day_number(v_year(d), v_ord(d)) }
+spec fn dwf(d: NaiveDate) -> bool { dwf0(d) && DN_MIN() <= dn(d) <= DN_MAX() }
+// dwf0 is the form in which Kani establishes the representation invariant; the range conjunct of dwf follows by in_range
+proof fn dwf_link(d: NaiveDate)
+    requires dwf0(d)
+    ensures dwf(d)
+{ in_range(v_year(d), v_ord(d)); }
 '''
 
 TIME_VIEW = r'''
@@ -236,10 +257,114 @@ spec fn twf(t: NaiveTime) -> bool { t.secs < 86400 && t.frac < 2_000_000_000 }
 spec fn nonleap(t: NaiveTime) -> bool { t.frac < 1_000_000_000 }
 spec fn tpos(t: NaiveTime) -> int { t.secs as int * 1_000_000_000 + t.frac as int }
 spec fn DAYNS() -> int { 86_400_000_000_000 }
+spec fn leap(t: NaiveTime) -> bool { t.frac >= 1_000_000_000 }
+// C07 leap-line model ("as if it were the only leap second"): for a leap `t` the second t.secs lasts 2 s.
+// Result of adding d nanoseconds: (stayed inside the leap second or the second before?, position)
+//   stayed  -> position on the leap line, same second
+//   left    -> position on the ordinary line (before wrapping modulo one day)
+spec fn add_model(t: NaiveTime, d: int) -> (bool, int) {
+    let p = tpos(t); let r = p + d; let s = t.secs as int * 1_000_000_000;
+    if t.frac < 1_000_000_000 { (false, r) }
+    else if r >= s + 2_000_000_000 { (false, r - 1_000_000_000) }
+    else if r >= s { (true, r) }
+    else { (false, r) }
+}
+spec fn add_post(t: NaiveTime, d: int, res: NaiveTime, carry_secs: int) -> bool {
+    let m = add_model(t, d);
+    twf(res) && (if m.0 { carry_secs == 0 && res.secs == t.secs && tpos(res) == m.1 }
+                 else { nonleap(res) && tpos(res) == m.1 % DAYNS() && carry_secs * 1_000_000_000 == m.1 - m.1 % DAYNS() && carry_secs % 86400 == 0 })
+}
+// position on the joint line that contains the leap second of whichever operand is leap (C07 difference)
+spec fn jpos(x: NaiveTime, other: NaiveTime) -> int {
+    tpos(x) + (if leap(other) && other.secs < x.secs { 1_000_000_000int } else { 0int })
+}
+spec fn offwf(o: FixedOffset) -> bool { -86400 < o.local_minus_utc < 86400 }
+spec fn hms_ok(h: int, m: int, s: int, nano: int) -> bool {
+    h < 24 && m < 60 && s < 60 && (nano < 1_000_000_000 || (nano < 2_000_000_000 && s == 59))
+}
 '''
 
 DT_VIEW = r'''
 spec fn dtwf(x: NaiveDateTime) -> bool { dwf(x.date) && twf(x.time) }
+// C03/C07: result of adding d nanoseconds to a date-time (leap-line model for the time of day, carry applied to the date)
+spec fn dt_add_post(x: NaiveDateTime, d: int, r: Option<NaiveDateTime>) -> bool {
+    let m = add_model(x.time, d);
+    if m.0 {
+        r.is_some() && dwf(r.unwrap().date) && dn(r.unwrap().date) == dn(x.date) && twf(r.unwrap().time) && r.unwrap().time.secs == x.time.secs && tpos(r.unwrap().time) == m.1
+    } else {
+        let total = dn(x.date) * DAYNS() + m.1;
+        (r.is_some() <==> DN_MIN() * DAYNS() <= total < (DN_MAX() + 1) * DAYNS())
+        && (r.is_some() ==> dtwf(r.unwrap()) && nonleap(r.unwrap().time) && instant(r.unwrap()) == total)
+    }
+}
+// wall clock = utc + offset seconds, whole days carried into the date; the sub-second field is kept (C04)
+spec fn shifted(x: NaiveDateTime, off: int, r: NaiveDateTime) -> bool {
+    r.time.frac == x.time.frac && twf(r.time)
+    && dn(r.date) * 86400 + r.time.secs as int == dn(x.date) * 86400 + x.time.secs as int + off
+}
 spec fn instant(x: NaiveDateTime) -> int { dn(x.date) * DAYNS() + tpos(x.time) }
 spec fn unix_secs(x: NaiveDateTime) -> int { (dn(x.date) - UNIX_DAY()) * 86400 + x.time.secs as int }
+// carry of whole days from the time of day into the date (used by NaiveDateTime::checked_add_signed / checked_sub_signed)
+proof fn dt_carry(dnx: int, m1: int, tp: int, c: int)
+    requires c % 86400 == 0, 0 <= tp < DAYNS(), tp + c * 1_000_000_000 == m1, DN_MIN() <= dnx <= DN_MAX()
+    ensures trunc_div(c * 1_000_000_000, DAYNS()) == c / 86400,
+            trunc_div(-(c * 1_000_000_000), DAYNS()) == -(c / 86400),
+            (dnx + c / 86400) * DAYNS() + tp == dnx * DAYNS() + m1,
+            (DN_MIN() <= dnx + c / 86400 <= DN_MAX()) <==> (DN_MIN() * DAYNS() <= dnx * DAYNS() + m1 < (DN_MAX() + 1) * DAYNS()),
+            (c * 1_000_000_000 < -LIM() || c * 1_000_000_000 > LIM()) ==> !(DN_MIN() <= dnx + c / 86400 <= DN_MAX())
+{
+    let q = c / 86400;
+    assert(c == q * 86400);
+    assert(c * 1_000_000_000 == q * DAYNS()) by(nonlinear_arith) requires c == q * 86400, DAYNS() == 86400 * 1_000_000_000int;
+    assert(trunc_div(q * DAYNS(), DAYNS()) == q && trunc_div(-(q * DAYNS()), DAYNS()) == -q) by {
+        lemma_div_multiples_vanish(q, DAYNS()); lemma_div_multiples_vanish(-q, DAYNS());
+        assert((-q) * DAYNS() == -(q * DAYNS())) by(nonlinear_arith);
+    }
+    assert((dnx + q) * DAYNS() == dnx * DAYNS() + q * DAYNS()) by(nonlinear_arith);
+    let t = dnx + q;
+    assert((DN_MIN() <= t) <==> (DN_MIN() * DAYNS() <= t * DAYNS() + tp)) by(nonlinear_arith) requires 0 <= tp < DAYNS(), DAYNS() > 0;
+    assert((t <= DN_MAX()) <==> (t * DAYNS() + tp < (DN_MAX() + 1) * DAYNS())) by(nonlinear_arith) requires 0 <= tp < DAYNS(), DAYNS() > 0;
+}
 '''
+
+
+def stubify(text):
+    """turn every `proof fn` of `text` into an external_body axiom (its proof lives in the unit that owns the lemma)"""
+    import re
+    out = []
+    i = 0
+    for m in re.finditer(r'^proof fn (\w+)', text, flags=re.M):
+        out.append(text[i:m.start()])
+        # find the body: first '{' at paren depth 0 after the parameter list
+        k = text.index('(', m.end())
+        depth = 0
+        while True:
+            ch = text[k]
+            if ch == '(':
+                depth += 1
+            elif ch == ')':
+                depth -= 1
+            elif ch == '{' and depth == 0:
+                break
+            k += 1
+        # matching close
+        d2 = 0
+        e = k
+        while True:
+            if text[e] == '{':
+                d2 += 1
+            elif text[e] == '}':
+                d2 -= 1
+                if d2 == 0:
+                    break
+            e += 1
+        out.append('#[verifier::external_body]\n' + text[m.start():k] + '{ unimplemented!() }')
+        i = e + 1
+    out.append(text[i:])
+    return ''.join(out)
+
+
+# calendar lemmas as axioms for units other than `date` (which proves them); RUST_DIV lemmas likewise (proved in `timedelta`)
+CALENDAR_AX = stubify(CALENDAR).replace('spec fn days_before_year', '#[verifier::opaque]\nspec fn days_before_year').replace('spec fn leaps_before', '#[verifier::opaque]\nspec fn leaps_before')
+RUST_DIV_AX = stubify(RUST_DIV)
+DATE_VIEW_AX = stubify(DATE_VIEW)
